@@ -971,6 +971,18 @@ func (e *queueExec) shadowPop(now int64, name string, off, ln int64, prev string
 				name, sg.name, sg.tag.Order, prev, sg.anchor)
 		}
 	}
+	// C11 (queue side): a plain file is cut front to back into chunks of ITS OWN tag's chunk size (0 = the whole
+	// file), whichever group stands at the head of the queue
+	if cur.rec == nil && !cur.allocated() && sg.tag.ChunkSize >= 0 { // a negative chunk size is one of the excluded points of C11 (side condition of allocate_tiles)
+		want := cur.size - cur.alloc
+		if c := sg.tag.ChunkSize; c > 0 && c < want {
+			want = c
+		}
+		if off != cur.alloc || ln != want {
+			e.fail("chunk-size: Pop cut %d:%d of %s (size %d, %d allocated before, chunk size %d of its tag), expected %d:%d",
+				off, off+ln, name, cur.size, cur.alloc, sg.tag.ChunkSize, cur.alloc, cur.alloc+want)
+		}
+	}
 	// move the specification along
 	if cur.rec == nil {
 		cur.alloc += ln
